@@ -147,12 +147,50 @@ Proof.
   destruct (reg_get R0 p); reflexivity.
 Qed.
 
+Lemma forallb_ext_in {X} (f g : X -> bool) : forall l, (forall x, In x l -> f x = g x) -> forallb f l = forallb g l.
+Proof.
+  induction l as [|x l IH]; cbn [forallb]; intros H; [reflexivity|].
+  rewrite (H x (or_introl eq_refl)), IH; [reflexivity|]. intros; apply H; now right.
+Qed.
+Lemma forallb_ext {X} (f g : X -> bool) l : (forall x, f x = g x) -> forallb f l = forallb g l.
+Proof. intros H. apply forallb_ext_in. auto. Qed.
+
+(** the module table keeps its keys, in order; modules change only in their set of item paths *)
+Definition mods_rel (ms ms0 : list (path * smodule)) : Prop :=
+  Forall2 (fun km km0 => fst km = fst km0 /\ mod_eq (snd km) (snd km0)) ms ms0.
+
+Lemma mod_eq_refl m : mod_eq m m.
+Proof. repeat split. Qed.
+Lemma mod_eq_trans a b c : mod_eq a b -> mod_eq b c -> mod_eq a c.
+Proof. intros (A1 & B1 & C1 & D1) (A2 & B2 & C2 & D2). repeat split; congruence. Qed.
+
+Lemma mods_rel_refl ms : mods_rel ms ms.
+Proof. induction ms as [|km ms IH]; constructor; [split; [reflexivity | apply mod_eq_refl] | exact IH]. Qed.
+
+Lemma mods_rel_agree ms ms0 : mods_rel ms ms0 -> mods_agree ms ms0.
+Proof.
+  induction 1 as [|[k m] [k0 m0] ms ms0 [Hk He] _ IH]; intros q; cbn [alookup]; [exact I|].
+  cbn [fst snd] in *. subst k0. destruct (path_eqb q k); [exact He | apply IH].
+Qed.
+
+Lemma mods_rel_insert ms ms0 k m m' :
+  mods_rel ms ms0 -> alookup k ms = Some m -> mod_eq m' m -> mods_rel (ainsert k m' ms) ms0.
+Proof.
+  induction 1 as [|[k1 m1] [k0 m0] ms ms0 [Hk He] Hrest IH]; cbn [alookup ainsert]; [discriminate|].
+  cbn [fst snd] in *. subst k0. destruct (path_eqb_spec k k1) as [->|Hne]; intros Hl Hm.
+  - inversion Hl; subst m1. constructor; [|exact Hrest]. split; [reflexivity|]. eapply mod_eq_trans; eauto.
+  - constructor; [split; [reflexivity | exact He] | apply IH; assumption].
+Qed.
+
 Section Abs.
   Variable st0 : sstate.
   Let R0 := st_reg st0.
   Hypothesis Hcf : collision_free R0.
   Hypothesis Hu8 : user R0 ["u8"].
-  Hypothesis Hclean_mods : forall k m, alookup k (st_modules st0) = Some m -> clean_module m = true.
+  Hypothesis Hclean_mods : forall km, In km (st_modules st0) -> clean_module (snd km) = true.
+
+  Lemma clean_mods_lookup k m : alookup k (st_modules st0) = Some m -> clean_module m = true.
+  Proof. intros H. destruct (alookup_in _ _ _ H) as (k' & Hin & _). apply (Hclean_mods _ Hin). Qed.
   Hypothesis Hclean_defs : forall p it gd, reg_get R0 p = Some it -> it_state it = Unresolved gd -> clean_def gd = true.
 
   Definition conc (A : astate) : sstate := {| st_modules := st_modules st0; st_reg := mark R0 A |}.
@@ -205,7 +243,7 @@ Section Abs.
     - apply chas_mark.
     - apply chas_mark.
     - unfold user. fold R0. congruence.
-    - intros parent m _ Hm. eapply Hclean_mods; eauto.
+    - intros parent m _ Hm. eapply clean_mods_lookup; eauto.
     - eapply Hclean_defs; eauto.
     - reflexivity.
     - intros E. rewrite E in H. cbn in H. congruence.
@@ -229,7 +267,7 @@ Section Abs.
     sim_inv : Inv R0 (st_reg st);
     sim_present : present R0 (st_reg st);
     sim_keyed : keyed (st_reg st);
-    sim_mods : mods_agree (st_modules st) (st_modules st0);
+    sim_mods : mods_rel (st_modules st) (st_modules st0);
     sim_ev : evolves (reg_types R0) (reg_types (st_reg st));
     sim_user : forall p, user R0 p -> reg_get (st_reg st) p = reg_get (mark R0 A) p;
     sim_supp : forall p, A p <> None -> In p items }.
@@ -246,7 +284,7 @@ Section Abs.
     - apply Inv_init.
     - apply present_init.
     - exact HK0.
-    - apply mods_agree_refl.
+    - apply mods_rel_refl.
     - constructor.
     - intros p _. now rewrite mark_empty.
     - intros p H. congruence.
@@ -255,25 +293,25 @@ Section Abs.
   Lemma mods_agree_sym ms ms' : mods_agree ms ms' -> mods_agree ms' ms.
   Proof.
     intros H k. specialize (H k). destruct (alookup k ms), (alookup k ms'); auto.
-    destruct H as (A & B & C). repeat split; congruence.
+    destruct H as (A & B & C & D). repeat split; congruence.
   Qed.
 
   Lemma mods_agree_trans a b c : mods_agree a b -> mods_agree b c -> mods_agree a c.
   Proof.
     intros H1 H2 k. specialize (H1 k). specialize (H2 k).
     destruct (alookup k a), (alookup k b), (alookup k c); auto; try contradiction.
-    destruct H1 as (A1 & B1 & C1), H2 as (A2 & B2 & C2). repeat split; congruence.
+    destruct H1 as (A1 & B1 & C1 & D1), H2 as (A2 & B2 & C2 & D2). repeat split; congruence.
   Qed.
 
   Lemma clean_module_eq m m' : mod_eq m m' -> clean_module m = clean_module m'.
-  Proof. intros (A & B & C). unfold clean_module, module_scope. now rewrite A, B, C. Qed.
+  Proof. intros (A & B & C & D). unfold clean_module, module_scope. now rewrite A, B, C, D. Qed.
 
   Lemma sim_clean_mods st A : sim st A ->
     forall k m, alookup k (st_modules st) = Some m -> clean_module m = true.
   Proof.
-    intros HS k m Hm. pose proof (sim_mods _ _ HS k) as H. rewrite Hm in H.
+    intros HS k m Hm. pose proof (mods_rel_agree _ _ (sim_mods _ _ HS) k) as H. rewrite Hm in H.
     destruct (alookup k (st_modules st0)) as [m0|] eqn:E0; [|contradiction].
-    rewrite (clean_module_eq _ _ H). eapply Hclean_mods; eauto.
+    rewrite (clean_module_eq _ _ H). eapply clean_mods_lookup; eauto.
   Qed.
 
   Lemma sim_usub st A : sim st A -> usub R0 (st_reg st) (mark R0 A) /\ usub R0 (mark R0 A) (st_reg st).
@@ -294,16 +332,16 @@ Section Abs.
     assert (chas R0 (st_reg st)) as HC by (apply reach_chas; split; [apply (sim_inv _ _ HS) | apply (sim_present _ _ HS)]).
     assert (clean_def gd = true) as Hcd by (eapply Hclean_defs; eauto).
     destruct (snd (attempt st k gd)) as [r| |m|m] eqn:E.
-    - rewrite (attempt_mono R0 Hcf Hu8 st (conc A) k gd _ Hu1 (sim_mods _ _ HS) (sim_present _ _ HS) HC (chas_mark A) Huk
+    - rewrite (attempt_mono R0 Hcf Hu8 st (conc A) k gd _ Hu1 (mods_rel_agree _ _ (sim_mods _ _ HS)) (sim_present _ _ HS) HC (chas_mark A) Huk
                  (fun parent m _ Hm => sim_clean_mods _ _ HS _ _ Hm) Hcd E); [reflexivity | discriminate].
     - destruct (snd (attempt (conc A) k gd)) as [r| |m|m] eqn:E'; try reflexivity; exfalso.
-      all: pose proof (attempt_mono R0 Hcf Hu8 (conc A) st k gd _ Hu2 (mods_agree_sym _ _ (sim_mods _ _ HS))
+      all: pose proof (attempt_mono R0 Hcf Hu8 (conc A) st k gd _ Hu2 (mods_agree_sym _ _ (mods_rel_agree _ _ (sim_mods _ _ HS)))
                          (present_mark A) (chas_mark A) HC Huk
-                         (fun parent m _ Hm => Hclean_mods _ _ Hm) Hcd E' ltac:(discriminate)) as X;
+                         (fun parent m _ Hm => clean_mods_lookup _ _ Hm) Hcd E' ltac:(discriminate)) as X;
         rewrite E in X; discriminate.
-    - rewrite (attempt_mono R0 Hcf Hu8 st (conc A) k gd _ Hu1 (sim_mods _ _ HS) (sim_present _ _ HS) HC (chas_mark A) Huk
+    - rewrite (attempt_mono R0 Hcf Hu8 st (conc A) k gd _ Hu1 (mods_rel_agree _ _ (sim_mods _ _ HS)) (sim_present _ _ HS) HC (chas_mark A) Huk
                  (fun parent m _ Hm => sim_clean_mods _ _ HS _ _ Hm) Hcd E); [reflexivity | discriminate].
-    - rewrite (attempt_mono R0 Hcf Hu8 st (conc A) k gd _ Hu1 (sim_mods _ _ HS) (sim_present _ _ HS) HC (chas_mark A) Huk
+    - rewrite (attempt_mono R0 Hcf Hu8 st (conc A) k gd _ Hu1 (mods_rel_agree _ _ (sim_mods _ _ HS)) (sim_present _ _ HS) HC (chas_mark A) Huk
                  (fun parent m _ Hm => sim_clean_mods _ _ HS _ _ Hm) Hcd E); [reflexivity | discriminate].
   Qed.
 
@@ -334,7 +372,10 @@ Section Abs.
     - exact HI1.
     - rewrite (add_item_reg _ _ _ Hadd). apply present_add. apply (sim_present _ _ HS).
     - exact HK1.
-    - eapply mods_agree_trans; [eapply add_item_mods; eauto | apply (sim_mods _ _ HS)].
+    - unfold add_item in Hadd. destruct (path_parent (it_path vit)) as [parent|]; [|discriminate].
+      destruct (alookup parent (st_modules st)) as [m|] eqn:Em; [|discriminate].
+      inversion Hadd; subst st1. cbn [st_modules].
+      eapply mods_rel_insert; [apply (sim_mods _ _ HS) | exact Em | repeat split].
     - rewrite (add_item_reg _ _ _ Hadd). cbn [reg_add reg_types]. constructor; [apply (sim_ev _ _ HS) | exact Hres].
     - intros p Hp. rewrite (Hback p Hp). apply (sim_user _ _ HS p Hp).
     - apply (sim_supp _ _ HS).
@@ -513,6 +554,158 @@ Section Abs.
       assert (Confluence.unres _ _ items A1 = Confluence.unres _ _ items A2) as ->; [|apply Permutation_refl].
       unfold Confluence.unres. apply filter_ext_in. intros k Hk. unfold Confluence.isnone. now rewrite (OI k Hk).
   Qed.
+  (** ** [finish_build] on two final states that stand for the same abstract state *)
+  Lemma sim_clean_nonuser st A k : sim st A -> ~ user R0 k -> clean_path k = true -> reg_get (st_reg st) k = None.
+  Proof.
+    intros HS Hnu Hc. destruct (reg_get (st_reg st) k) as [it|] eqn:E; [|reflexivity]. exfalso.
+    destruct (sim_inv _ _ HS) as [_ HI]. specialize (HI _ _ E).
+    destruct (reg_get R0 k) eqn:E0; [apply Hnu; unfold user; fold R0; congruence|].
+    destruct HI as (owner & ? & ? & ? & ? & ? & _ & _ & _ & Hvp & _).
+    rewrite (gen_path_not_clean _ _ Hvp) in Hc. discriminate.
+  Qed.
+
+  Definition agreeA (A1 A2 : astate) : Prop := forall k, In k items -> A1 k = A2 k.
+
+  Lemma sim_reg_agree s1 A1 s2 A2 k : sim s1 A1 -> sim s2 A2 -> agreeA A1 A2 -> clean_path k = true ->
+    reg_get (st_reg s1) k = reg_get (st_reg s2) k.
+  Proof.
+    intros H1 H2 Ha Hc. destruct (reg_get R0 k) eqn:E0.
+    - assert (user R0 k) as Hu by (unfold user; fold R0; congruence).
+      rewrite (sim_user _ _ H1 k Hu), (sim_user _ _ H2 k Hu).
+      apply mark_agree; [exact Ha | apply (sim_supp _ _ H1) | apply (sim_supp _ _ H2)].
+    - assert (~ user R0 k) as Hu by (unfold user; fold R0; congruence).
+      now rewrite (sim_clean_nonuser _ _ _ H1 Hu Hc), (sim_clean_nonuser _ _ _ H2 Hu Hc).
+  Qed.
+
+  Definition impls_ok (R : registry) (ms : list (path * smodule)) : bool :=
+    forallb (fun km => forallb (fun kb => impl_is_defined_type R (fst kb)) (m_impls (snd km))) ms.
+
+  Lemma impls_ok_rel R ms ms0 : mods_rel ms ms0 -> impls_ok R ms = impls_ok R ms0.
+  Proof.
+    unfold impls_ok. induction 1 as [|km km0 ms ms0 [_ (_ & _ & Hi & _)] _ IH]; cbn [forallb]; [reflexivity|].
+    now rewrite Hi, IH.
+  Qed.
+
+  Lemma impls_ok_agree s1 A1 s2 A2 : sim s1 A1 -> sim s2 A2 -> agreeA A1 A2 ->
+    impls_ok (st_reg s1) (st_modules s1) = impls_ok (st_reg s2) (st_modules s2).
+  Proof.
+    intros H1 H2 Ha. rewrite (impls_ok_rel _ _ _ (sim_mods _ _ H1)), (impls_ok_rel _ _ _ (sim_mods _ _ H2)).
+    unfold impls_ok. apply forallb_ext_in. intros km Hkm. apply forallb_ext_in. intros kb Hkb.
+    pose proof (Hclean_mods _ Hkm) as Hc. unfold clean_module in Hc. apply andb_prop in Hc as [_ Hc].
+    apply andb_prop in Hc as [Hc _]. rewrite forallb_forall in Hc. specialize (Hc _ Hkb).
+    unfold impl_is_defined_type. now rewrite (sim_reg_agree _ _ _ _ _ H1 H2 Ha Hc).
+  Qed.
+
+  Definition evs_ok (R : registry) (m : smodule) : bool :=
+    forallb (fun ev => match resolve_gtype R (module_scope m) (ev_gtype ev) with Some _ => true | None => false end)
+            (m_extern_values m).
+
+  Lemma resolve_extern_values_ok R m : is_ok (resolve_extern_values R m) = evs_ok R m.
+  Proof.
+    unfold resolve_extern_values, evs_ok. induction (m_extern_values m) as [|ev evs IH]; cbn [mapM forallb]; [reflexivity|].
+    destruct (resolve_gtype R (module_scope m) (ev_gtype ev)); cbn [bind andb]; [|reflexivity].
+    destruct (mapM _ evs); cbn [bind is_ok] in *; auto.
+  Qed.
+
+  Lemma mapM_is_ok {X Y} (f : X -> outcome Y) : forall l, is_ok (mapM f l) = forallb (fun x => is_ok (f x)) l.
+  Proof.
+    induction l as [|x l IH]; cbn [mapM forallb]; [reflexivity|].
+    destruct (f x); cbn [bind is_ok andb]; try reflexivity. rewrite <- IH. destruct (mapM f l); reflexivity.
+  Qed.
+
+  Definition all_evs_ok (R : registry) (ms : list (path * smodule)) : bool :=
+    forallb (fun km => evs_ok R (snd km)) ms.
+
+  Lemma finish_build_class st :
+    match finish_build st with
+    | BOk t => st_reg t = st_reg st /\ impls_ok (st_reg st) (st_modules st) = true /\ all_evs_ok (st_reg st) (st_modules st) = true
+    | BErr _ | BPanic _ => impls_ok (st_reg st) (st_modules st) && all_evs_ok (st_reg st) (st_modules st) = false
+    | _ => False
+    end.
+  Proof.
+    unfold finish_build. fold (impls_ok (st_reg st) (st_modules st)).
+    destruct (impls_ok (st_reg st) (st_modules st)) eqn:Ei; cbn [negb]; [|reflexivity].
+    set (f := fun km : path * smodule => do m' <- resolve_extern_values (st_reg st) (snd km); Ok (fst km, m')).
+    assert (is_ok (mapM f (st_modules st)) = all_evs_ok (st_reg st) (st_modules st)) as Hok.
+    { rewrite mapM_is_ok. unfold all_evs_ok. apply forallb_ext. intros km. unfold f.
+      rewrite <- resolve_extern_values_ok. destruct (resolve_extern_values _ _); reflexivity. }
+    destruct (mapM f (st_modules st)); cbn [is_ok] in Hok; cbn [andb]; auto.
+  Qed.
+
+  Lemma all_evs_rel R : chas R0 R -> forall ms ms0, mods_rel ms ms0 ->
+    (forall km0, In km0 ms0 -> clean_module (snd km0) = true) ->
+    all_evs_ok R ms = all_evs_ok R0 ms0.
+  Proof.
+    intros HC. unfold all_evs_ok. induction 1 as [|km km0 ms ms0 [_ (Hp & Ha & _ & Hev)] _ IH]; intros Hcl; cbn [forallb]; [reflexivity|].
+    rewrite IH by (intros; apply Hcl; now right). f_equal.
+    pose proof (Hcl km0 (or_introl eq_refl)) as Hc. unfold clean_module in Hc. apply andb_prop in Hc as [Hc1 Hc2].
+    apply andb_prop in Hc1 as [Hcs _]. apply andb_prop in Hc2 as [_ Hce].
+    unfold evs_ok. assert (module_scope (snd km) = module_scope (snd km0)) as -> by (unfold module_scope; congruence).
+    rewrite Hev. apply forallb_ext_in. intros ev Hin. rewrite forallb_forall in Hce.
+    now rewrite (resolve_gtype_reach R0 R _ HC Hcs _ (Hce _ Hin)).
+  Qed.
+
+  Lemma all_evs_ok_agree s1 A1 s2 A2 : sim s1 A1 -> sim s2 A2 ->
+    all_evs_ok (st_reg s1) (st_modules s1) = all_evs_ok (st_reg s2) (st_modules s2).
+  Proof.
+    intros H1 H2.
+    assert (forall s A, sim s A -> chas R0 (st_reg s)) as HC
+        by (intros s A HS; apply reach_chas; split; [apply (sim_inv _ _ HS) | apply (sim_present _ _ HS)]).
+    rewrite (all_evs_rel _ (HC _ _ H1) _ _ (sim_mods _ _ H1) Hclean_mods).
+    now rewrite (all_evs_rel _ (HC _ _ H2) _ _ (sim_mods _ _ H2) Hclean_mods).
+  Qed.
+
+  (** the whole front half after the loop: same class, and an accepted build keeps the registry *)
+  Definition same_final (r1 r2 : build_result) : Prop :=
+    match r1, r2 with
+    | BOk s1, BOk s2 => forall p, user R0 p -> reg_get (st_reg s1) p = reg_get (st_reg s2) p
+    | BErr _, BErr _ | BErr _, BPanic _ | BPanic _, BErr _ | BPanic _, BPanic _ => True
+    | _, _ => False
+    end.
+
+  Lemma finish_build_agree s1 A1 s2 A2 : sim s1 A1 -> sim s2 A2 -> agreeA A1 A2 ->
+    same_final (finish_build s1) (finish_build s2).
+  Proof.
+    intros H1 H2 Ha. pose proof (finish_build_class s1) as C1. pose proof (finish_build_class s2) as C2.
+    rewrite (impls_ok_agree _ _ _ _ H1 H2 Ha), (all_evs_ok_agree _ _ _ _ H1 H2) in C1.
+    destruct (finish_build s1) as [t1|m1|l1|m1|], (finish_build s2) as [t2|m2|l2|m2|]; cbn [same_final]; try contradiction; auto.
+    - destruct C1 as (E1 & _), C2 as (E2 & _). intros p Hp. rewrite E1, E2, (sim_user _ _ H1 p Hp), (sim_user _ _ H2 p Hp).
+      apply mark_agree; [exact Ha | apply (sim_supp _ _ H1) | apply (sim_supp _ _ H2)].
+    - destruct C1 as (_ & I1 & V1). rewrite I1, V1 in C2. discriminate.
+    - destruct C1 as (_ & I1 & V1). rewrite I1, V1 in C2. discriminate.
+    - destruct C2 as (_ & I2 & V2). rewrite I2, V2 in C1. discriminate.
+    - destruct C2 as (_ & I2 & V2). rewrite I2, V2 in C1. discriminate.
+  Qed.
+  (** ** the whole front half ([sem_build] = loop, then [finish_build]) is order independent *)
+  Definition same_build (r1 r2 : build_result) : Prop :=
+    match r1, r2 with
+    | BOk s1, BOk s2 => forall p, user R0 p -> reg_get (st_reg s1) p = reg_get (st_reg s2) p
+    | BNoProgress l1, BNoProgress l2 => Permutation l1 l2
+    | BErr _, BErr _ | BErr _, BPanic _ | BPanic _, BErr _ | BPanic _, BPanic _ => True
+    | _, _ => False
+    end.
+
+  Theorem sem_build_order_independent o1 o2 :
+    (forall l, Permutation (o1 l) l) -> (forall l, Permutation (o2 l) l) ->
+    same_build (sem_build o1 st0) (sem_build o2 st0).
+  Proof.
+    intros P1 P2. unfold sem_build. fold R0. set (fuel := S (List.length (reg_unresolved R0))).
+    pose proof (loop_sim o1 P1 fuel _ _ sim_init) as S1.
+    pose proof (loop_sim o2 P2 fuel _ _ sim_init) as S2.
+    assert (List.length (Confluence.unres path resolved items (fun _ => None)) < fuel) as Hf'.
+    { unfold Confluence.unres. rewrite filter_all_true; [unfold fuel, items; lia | reflexivity]. }
+    pose proof (Confluence.order_independent path resolved path_eqb path_eqb_spec att att_M1 att_M2
+                  items o1 o2 P1 P2 fuel (fun _ => None) Hf') as OI.
+    destruct (resolve_loop o1 fuel st0) as [s1|m1|l1|m1|], (Confluence.loop _ _ _ _ _ o1 _ _ _) as [A1|A1| |];
+      cbn [abs_result] in S1; try contradiction;
+    destruct (resolve_loop o2 fuel st0) as [s2|m2|l2|m2|], (Confluence.loop _ _ _ _ _ o2 _ _ _) as [A2|A2| |];
+      cbn [abs_result] in S2; try contradiction; cbn [Confluence.same_outcome same_build] in *; try contradiction; auto.
+    - pose proof (finish_build_agree _ _ _ _ S1 S2 OI) as F.
+      destruct (finish_build s1), (finish_build s2); cbn [same_final same_build] in *; auto; contradiction.
+    - eapply Permutation_trans; [exact S1|]. eapply Permutation_trans; [|apply Permutation_sym; exact S2].
+      assert (Confluence.unres _ _ items A1 = Confluence.unres _ _ items A2) as ->; [|apply Permutation_refl].
+      unfold Confluence.unres. apply filter_ext_in. intros k Hk. unfold Confluence.isnone. now rewrite (OI k Hk).
+  Qed.
 End Abs.
 
 (** ** the schedules the hook installs are permutations *)
@@ -551,11 +744,11 @@ Definition clean_stateb (st0 : sstate) : bool :=
           (reg_types (st_reg st0)).
 
 Lemma clean_stateb_sound st0 : clean_stateb st0 = true ->
-  (forall k m, alookup k (st_modules st0) = Some m -> clean_module m = true) /\
+  (forall km, In km (st_modules st0) -> clean_module (snd km) = true) /\
   (forall p it gd, reg_get (st_reg st0) p = Some it -> it_state it = Unresolved gd -> clean_def gd = true).
 Proof.
   unfold clean_stateb. intros H. apply andb_prop in H as [H1 H2]. rewrite forallb_forall in H1, H2. split.
-  - intros k m Hm. destruct (alookup_in _ _ _ Hm) as (k' & Hin & _). apply (H1 _ Hin).
+  - exact H1.
   - intros p it gd Hg Hs. unfold reg_get in Hg. destruct (alookup_in _ _ _ Hg) as (k' & Hin & _).
     specialize (H2 _ Hin). cbn [snd] in H2. now rewrite Hs in H2.
 Qed.
@@ -595,6 +788,23 @@ Theorem pyxis_loop_order_independent ptr mods st0 o1 o2 :
 Proof.
   intros Hin Hcf Hcl P1 P2 fuel. destruct (clean_stateb_sound _ Hcl) as [Hm Hd].
   apply resolve_loop_order_independent; auto.
+  - apply reg_u8_user. eapply input_state_u8; eauto.
+  - eapply input_state_keyed; eauto.
+  - eapply input_state_nodup; eauto.
+Qed.
+
+(** ** C09 for the model, whole front half: [pyxis_resolve] (registration, resolution loop,
+    [finish_build]) gives the same verdict class under any two permutation-valued order functions,
+    and an accepted build resolves every input item to the same value *)
+Theorem pyxis_resolve_order_independent ptr mods st0 o1 o2 :
+  input_state ptr mods = Ok st0 -> collision_free (st_reg st0) -> clean_stateb st0 = true ->
+  (forall l, Permutation (o1 l) l) -> (forall l, Permutation (o2 l) l) ->
+  same_build st0 (pyxis_resolve o1 ptr mods) (pyxis_resolve o2 ptr mods).
+Proof.
+  intros Hin Hcf Hcl P1 P2. destruct (clean_stateb_sound _ Hcl) as [Hm Hd].
+  assert (forall o, pyxis_resolve o ptr mods = sem_build o st0) as E.
+  { intros o. unfold pyxis_resolve. unfold input_state in Hin. now rewrite Hin. }
+  rewrite !E. apply sem_build_order_independent; auto.
   - apply reg_u8_user. eapply input_state_u8; eauto.
   - eapply input_state_keyed; eauto.
   - eapply input_state_nodup; eauto.
